@@ -1,8 +1,10 @@
 """C16 -- PEATCLSM functions follow the published formulation"""
 
+import math
+
 import numpy as np
 
-from .. import core, gen_params, oracle_hydraulics as oh
+from .. import argforms, core, gen_params, oracle_hydraulics as oh
 
 PROPERTY = 'C16'
 LEVEL = 'exploration'
@@ -13,7 +15,7 @@ RULE = (
     'tabulated levels (oracle: vectorised discretisation of the Dettmann-Bechtold profile with erfc, 1e-10 relative), '
     'at midpoints (linear) and beyond both ends (constant); for the published set additionally against the '
     'line-by-line transcription of the shipped R script (200 soil layers, np.allclose as the repository\'s own test). '
-    'Transmissivity for (Ksmacz0 in 1e-4..1e5, alpha in (1, 20], zeta_max) on scalars and arrays against '
+    'Transmissivity for (Ksmacz0 in 1e-4..1e5, alpha in (1, 20], zeta_max) on scalars and arrays (every container form of spowtd_verif/argforms.py: tuples, read-only / reversed / strided / big-endian arrays, ints; argument unchanged, second evaluation of the same object identical, refusal above the ceiling repeatable) against '
     'Ksmacz0 (zeta_max - zeta)^(1-alpha) / (100 (alpha - 1)) (1e-12 relative) and refusal above zeta_max.  '
     'The same functions are also reached through the command line (`spowtd plot specific-yield|transmissivity --dump`, '
     'YAML parameter file in, table out).  Non-trivial: parameter set differing from the published one in >= 2 parameters; distinct sets counted.'
@@ -34,6 +36,9 @@ REQUIRED = {
         'T-values-checked': 3000,
         'T-refusals-above-ceiling': 200,
         'T-array-calls': 200,
+        'T-argument-forms-vs-scalar': 200,
+        'sy-argument-forms-vs-scalar': 20,
+        'T-refusals-above-ceiling-repeated-on-the-same-array': 50,
         'dumped-sy-values-checked': 100,
         'dumped-T-values-checked': 100,
     }
@@ -85,6 +90,12 @@ def check_sy(ctx, rng, params, published=False):
             rec.violation('not-constant-beyond-the-table', {'params': params, 'level_mm': x, 'got': v, 'expected': float(exp)}, case, 'peatclsm_sy')
             return
         rec.hit('sy-extrapolation-points-checked')
+    # the same levels in every container form; argument unchanged; second evaluation identical
+    pts = [float(levels[rng.randrange(len(levels))]) for _ in range(3)] + [float(round(rng.uniform(levels[0] - 50, levels[-1] + 50))) for _ in range(3)] \
+        + [rng.uniform(float(levels[0]) - 50, float(levels[-1]) + 50) for _ in range(3)]
+    scalars = [float(sy(x)) for x in pts]
+    if not argforms.check_forms(rec, sy, pts, scalars, 'sy:', case, 'peatclsm_sy', 'sy-argument-forms-vs-scalar', exact=False, rel_tol=1e-13):
+        return
     if published:
         _, ref_r = oh.peatclsm_sy_profile(**p, layers=200)
         if not np.allclose(got, ref_r):
@@ -137,6 +148,12 @@ def check_T(ctx, rng, params):
         return
     rec.hit('T-values-checked', len(levels))
     rec.mark_nontrivial(core.digest(params))
+    # the same levels (and some whole-number ones) in every container form; argument unchanged;
+    # second evaluation of the same object identical
+    pts = list(levels) + [float(math.floor(zmax_mm) - k) for k in (1, 7, 250)]
+    scalars = [float(T(z)) for z in pts]
+    if not argforms.check_forms(rec, T, pts, scalars, 'T:', dict(case, levels=pts), 'peatclsm_T', 'T-argument-forms-vs-scalar', exact=False, rel_tol=1e-13):
+        return
     # refused above the ceiling (also when only one element of an array is above)
     above = zmax_mm + rng.choice([1e-6 * max(1.0, abs(zmax_mm)), 0.5, 10.0, 1e4])
     arg = above if rng.random() < 0.5 else np.array(levels + [above])
@@ -144,6 +161,19 @@ def check_T(ctx, rng, params):
         v = T(arg)
     except ValueError:
         rec.hit('T-refusals-above-ceiling')
+        if isinstance(arg, np.ndarray):
+            # the refusal is repeatable and leaves the caller's array alone
+            rec.hit('T-refusals-above-ceiling-repeated-on-the-same-array')
+            if not np.array_equal(arg, np.array(levels + [above])):
+                rec.violation('T:argument-array-is-modified-by-the-call', {'params': params, 'refused': True}, dict(case, levels=levels + [above]), 'peatclsm_T')
+                return
+            try:
+                v = T(arg)
+            except ValueError:
+                pass
+            else:
+                rec.violation('level-above-ceiling-accepted', {'params': params, 'level_mm': above, 'attempt': 2, 'returned': np.asarray(v).tolist()},
+                              dict(case, levels=[above]), 'peatclsm_T')
     except Exception as exc:  # pylint: disable=broad-except
         rec.violation('level-above-ceiling-not-refused-with-an-error-value:' + type(exc).__name__, {'params': params, 'level': above}, dict(case, levels=[above]), 'peatclsm_T')
     else:
